@@ -261,7 +261,7 @@ def gen_opts():
 
 
 def worker(widx, seed, tier, stats):
-    n = {'quick': 50, 'thorough': 1500}[tier]
+    n = {'quick': 50, 'thorough': 700}[tier]
     runner.run_given(cases(gen_opts()), body, seed, n, stats, shrink=(tier == 'thorough'))
     if not stats.violations:
         runner.run_given(twin_cases(gen_opts()), twin_body, seed + 3, max(n // 4, 6), stats, shrink=(tier == 'thorough'))
